@@ -94,6 +94,9 @@ def run(ctx):
     ctx.extra["gate_parameterisations"] = len(req["gates"])
     nsh = common.NCPU
     jobs = [{"terms": terms, "part": "gates", "nrandom": 3 if thorough else 1, "shard": i, "nshards": nsh} for i in range(nsh)]
+    # the whole list once more in one process and in reverse order (larger parameters before smaller): a gate's constraints are a
+    # function of its identifier and the row, not of what the process evaluated before
+    jobs.append({"terms": terms, "part": "gates", "nrandom": 0, "shard": 90, "nshards": 0, "reverse": True})
     jobs += [{"terms": terms, "part": "layouts", "nrandom": 5 if thorough else 2, "shard": i, "nshards": 4} for i in range(4)]
     pj = dict(files)
     pj.update({"part": "poseidon", "nrandom": 6 if thorough else 2, "shard": 99})
